@@ -9,6 +9,7 @@ import (
 
 	"hop.computer/hop/certs"
 	"hop.computer/hop/common"
+	"hop.computer/hop/pkg/vt"
 )
 
 // Handle implements net.Conn and MsgConn for connections accepted by a Server.
@@ -173,6 +174,9 @@ func (c *Handle) send(msgType MessageType, b []byte) error {
 	pkt, err := c.ss.sealPacketLocked(msgType, b, c.ss.writeKey)
 	remoteAddr := c.ss.remoteAddr
 	c.ss.m.Unlock()
+	if vt.On {
+		vt.Yield("h.send.sealed")
+	}
 	if err != nil {
 		go c.Close()
 		return err
